@@ -172,6 +172,7 @@ class Sim:
         self.sites = []                 # (tag, line) per switch, in order
         self.clock_jumps = {}           # step -> delta (fault plan)
         self.n_fault_clock_jump = 0
+        self.jump_total = 0.0           # sum of injected wall-clock steps (clock - jump_total is monotonic)
         self.n_stall = 0
         self.atomic = 0                 # >0: harness code, no yield points
         self.stall_rng = None           # fault: a pre-empted thread is stalled
@@ -653,7 +654,9 @@ def virtual_time():
         sim._time_calls = getattr(sim, "_time_calls", 0) + 1
         d = sim.clock_jumps.get(sim._time_calls)
         if d:
+            before = sim.clock
             sim.clock = max(sim.t0, sim.clock + d)
+            sim.jump_total += sim.clock - before
             sim.n_fault_clock_jump += 1
             sim._wake_due()
     return sim.clock
